@@ -25,7 +25,8 @@ Alphabet == {If(<<N(1)>>), If(<<N(0)>>), If(<<Df("DX")>>),
              [k |-> "ifdef", n |-> "U"], [k |-> "ifndef", n |-> "U"],
              [k |-> "ifdef", n |-> "DX"], [k |-> "ifndef", n |-> "DX"],
              [k |-> "else"], [k |-> "endif"], Mark(0),
-             [k |-> "define", n |-> "DX", v |-> 1], [k |-> "label", n |-> "lx"]}
+             [k |-> "define", n |-> "DX", v |-> 1], [k |-> "label", n |-> "lx"],
+             [k |-> "note", d |-> "else"], [k |-> "note", d |-> "endif"], [k |-> "note", d |-> "ifdef"]}
 Number(p) == IF p = <<>> THEN <<>>
              ELSE [i \in 1..Len(p) |-> IF p[i].k = "mark" THEN [p[i] EXCEPT !.b = 16 + i] ELSE p[i]]
 Count(p, k) == Cardinality({i \in 1..Len(p) : p[i].k = k})
@@ -88,7 +89,7 @@ IsCond(c) ==
 InitS == prog = <<>>
 NextS == Len(prog) < MaxLen /\ \E s \in Alphabet :
            /\ (s.k = "else" => ~SecondElse(prog))
-           /\ (s.k \in {"define", "label"} => Count(prog, s.k) = 0)
+           /\ (s.k \in {"define", "label", "note"} => Count(prog, s.k) = 0)
            /\ prog' = Append(prog, s)
 EmitS == prog = <<>> \/ PrintT("CASE " \o ToJson(Number(prog)))
 =============================================================================
